@@ -496,6 +496,66 @@ func dynTypes(v ssa.Value, seen map[ssa.Value]bool, out map[types.Type]bool) boo
 	return false
 }
 
+// dynTypesP: like dynTypes, and a call whose callees are all mq functions with bodies (resolved by the call graph,
+// also through function values kept in tables) contributes the dynamic types of what those functions return.
+func (p *Prog) dynTypesP(v ssa.Value, seen map[ssa.Value]bool, out map[types.Type]bool, depth int) bool {
+	if seen[v] {
+		return true
+	}
+	if dynTypes(v, map[ssa.Value]bool{}, map[types.Type]bool{}) {
+		return dynTypes(v, seen, out)
+	}
+	seen[v] = true
+	switch x := v.(type) {
+	case *ssa.Phi:
+		for _, e := range x.Edges {
+			if !p.dynTypesP(e, seen, out, depth) {
+				return false
+			}
+		}
+		return true
+	case *ssa.ChangeInterface:
+		return p.dynTypesP(x.X, seen, out, depth)
+	case *ssa.Extract:
+		if call, ok := x.Tuple.(*ssa.Call); ok {
+			return p.callResultTypes(call, x.Index, seen, out, depth)
+		}
+	case *ssa.Call:
+		return p.callResultTypes(x, 0, seen, out, depth)
+	}
+	return false
+}
+
+func (p *Prog) callResultTypes(call *ssa.Call, idx int, seen map[ssa.Value]bool, out map[types.Type]bool, depth int) bool {
+	if depth > 3 {
+		return false
+	}
+	callees, external := p.CG().Callees(call)
+	if external || len(callees) == 0 {
+		return false
+	}
+	for _, cal := range callees {
+		if cal.Blocks == nil || !p.inMQ(cal) {
+			return false
+		}
+		n := 0
+		for _, b := range cal.Blocks {
+			ret, ok := terminator(b).(*ssa.Return)
+			if !ok || idx >= len(ret.Results) {
+				continue
+			}
+			n++
+			if !p.dynTypesP(ret.Results[idx], seen, out, depth+1) {
+				return false
+			}
+		}
+		if n == 0 {
+			return false
+		}
+	}
+	return true
+}
+
 // printMethods lists the methods fmt may call on a value of type t printed
 // with verb: Format/GoString/Error/String on the value itself and on what it
 // contains (fmt descends into slices, arrays, maps, pointers-to-struct and
@@ -581,7 +641,7 @@ func (p *Prog) FmtCallees(fc *FmtCall) (fns []*ssa.Function, exact bool) {
 		tset := map[types.Type]bool{}
 		if !types.IsInterface(a.Type()) {
 			tset[a.Type()] = true
-		} else if !dynTypes(a, map[ssa.Value]bool{}, tset) {
+		} else if !p.dynTypesP(a, map[ssa.Value]bool{}, tset, 0) {
 			exact = false
 			tset = map[types.Type]bool{}
 			it := a.Type().Underlying().(*types.Interface)
